@@ -124,6 +124,42 @@ theorem decode_valid (ε : ℝ) (h0 : 0 < ε) (h1 : ε < 1) :
    fun _ => clampNorm_isProb (by norm_num) h0 h1 _,
    fun _ => clampNorm_isProb (Nat.succ_pos n) h0 h1 _⟩
 
+/-- **C13 validity at the boundary `ε = 0`** (the decoder then clamps to `[0, 1]`): the row is a probability row as soon
+as one entry of the affine decode is positive — in particular whenever the entries sum to one, which holds in
+'prevalence' mode and for the binary column `[1 - t, t]`. -/
+theorem decode_valid_eps0 {K : ℕ} (p : Vec ℝ K) (hpos : ∃ k, 0 < p k) : IsProb (clampNorm 0 p) := by
+  have hc : ∀ i, clampVec (0 : ℝ) p i = min (max (p i) 0) 1 := by
+    intro i; simp [clampVec, clamp, Xrfmv.Gen.Codec.clampLo, Xrfmv.Gen.Codec.clampHi]
+  have hnn : ∀ i, 0 ≤ clampVec (0 : ℝ) p i := by
+    intro i; rw [hc]; exact le_min (le_max_right _ _) zero_le_one
+  obtain ⟨k, hk⟩ := hpos
+  have hkpos : 0 < clampVec (0 : ℝ) p k := by
+    rw [hc]; exact lt_min (lt_of_lt_of_le hk (le_max_left _ _)) one_pos
+  have hs : 0 < ∑ i, clampVec (0 : ℝ) p i :=
+    lt_of_lt_of_le hkpos (Finset.single_le_sum (fun i _ => hnn i) (Finset.mem_univ k))
+  constructor
+  · intro i
+    simp only [clampNorm, vsum_eq_sum]
+    exact div_nonneg (hnn i) hs.le
+  · simp only [clampNorm, vsum_eq_sum]
+    rw [← Finset.sum_div, div_self hs.ne']
+
+/-- Rows that sum to one have a positive entry (`K ≥ 1`): the hypothesis of `decode_valid_eps0` in 'prevalence' mode
+and for the binary column. -/
+theorem pos_entry_of_sum_one {K : ℕ} (p : Vec ℝ K) (h : ∑ k, p k = 1) : ∃ k, 0 < p k := by
+  by_contra hne
+  push_neg at hne
+  have : ∑ k, p k ≤ 0 := Finset.sum_nonpos fun k _ => hne k
+  linarith
+
+/-- **The excluded point**: with `ε = 0` a 'zero_one' row without a positive entry is clamped to the zero row and the
+normalisation divides by zero (the real code returns NaN there; reproduced, see DESIGN §11.3 observations).  `ε > 0` in
+`decode_valid` is therefore necessary for "any finite real vector". -/
+theorem decode_eps0_zero_row {K : ℕ} (p : Vec ℝ K) (h : ∀ k, p k ≤ 0) : ∑ k, clampVec (0 : ℝ) p k = 0 := by
+  apply Finset.sum_eq_zero
+  intro i _
+  simp [clampVec, clamp, Xrfmv.Gen.Codec.clampLo, Xrfmv.Gen.Codec.clampHi, max_eq_right (h i)]
+
 /-- The empirical prior `counts / total` of any count vector that is not all zero (zeros allowed) is a
 probability row, so the hypothesis `Σ prior = 1` above is met by every label multiset. -/
 theorem prior_is_distribution {K : ℕ} (counts : Vec ℕ K) (hpos : 0 < ∑ k, counts k) :
